@@ -94,6 +94,17 @@ def gen(rng, tier):
             if not racy:
                 ops.append(['sync'])
     ops.append(['sync'])
+    if rng.random() < 0.2:
+        # the callback's contract is a *list* of pilots: the last two deaths
+        # are reported to the task manager in one invocation
+        dies = [i for i, op in enumerate(ops) if op[0] == 'die']
+        if len(dies) >= 2:
+            a, b = dies[-2], dies[-1]
+            bulk = ['die_bulk', [ops[a][1], ops[b][1]],
+                    [ops[a][2], ops[b][2]]]
+            ops = [op for i, op in enumerate(ops) if i not in (a, b)
+                   and not (op[0] == 'remove' and op[1] in bulk[1])]
+            ops += [bulk, ['sync']]
     return {'n_pilots': n_pilots,
             'tasks'   : [{'pilot': t['pilot'], 'early': t['early']}
                          for t in tasks],
@@ -212,6 +223,27 @@ def run(seed, scenario, trace=None, tier='quick'):
                     if op[1] < len(pids):
                         sim.probe('remove_pilot')
                         tmgr.remove_pilots(pids[op[1]])
+                elif op[0] == 'die_bulk':
+                    sync()
+                    sel = [pilots[p] for p in op[1] if p < len(pids)]
+                    saved = list()
+                    for p in sel:
+                        with p._cb_lock:
+                            cbs = p._callbacks[C.rpc.PILOT_STATE]
+                            keys = [k for k, v in cbs.items()
+                                    if v['cb'] == tmgr._pilot_state_cb]
+                            saved.append([(k, cbs.pop(k)) for k in keys])
+                    sim.fault('pilot_death')
+                    pub.put(C.rpc.STATE_PUBSUB, {'cmd': 'update', 'arg': [
+                        {'uid': p.uid, 'type': 'pilot', 'state': state}
+                        for p, state in zip(sel, op[2])]})
+                    sync()
+                    sim.probe('bulk_pilot_cb')
+                    tmgr._pilot_state_cb(sel)
+                    for p, ents in zip(sel, saved):
+                        with p._cb_lock:
+                            for k, ent in ents:
+                                p._callbacks[C.rpc.PILOT_STATE][k] = ent
                 elif op[0] == 'die':
                     _, p, state, racy = op
                     if racy:
@@ -268,7 +300,8 @@ def run(seed, scenario, trace=None, tier='quick'):
 
     res = C.run_world(seed, build, trace=trace,
                       max_steps=60000 if tier == 'quick' else 300000)
-    res['nontrivial'] = any(op[0] == 'die' for op in sc['ops']) and \
+    res['nontrivial'] = any(op[0] in ('die', 'die_bulk')
+                            for op in sc['ops']) and \
         len(sc['tasks']) >= 2
     return res
 
@@ -277,7 +310,7 @@ def shrink(sc):
     out = list()
     ops = sc['ops']
     for i in range(len(ops)):
-        if ops[i][0] in ('notify', 'die'):
+        if ops[i][0] in ('notify', 'die', 'die_bulk'):
             c = dict(sc); c['ops'] = ops[:i] + ops[i + 1:]; out.append(c)
     for i in range(len(ops)):
         if ops[i][0] == 'notify' and len(ops[i][1]) > 1:
@@ -305,7 +338,8 @@ INFO = {
     'rule': 'scenario = 2-3 pilots, 2-8 tasks (early bound, late bound, '
             'unbound) moved along seeded trajectories; pilots end (DONE/FAILED/'
             'CANCELED) at seeded crash points, with and without a sync point '
-            'before the death; non-trivial = >=1 pilot death and >=2 tasks; '
+            'before the death, sometimes two deaths reported in one '
+            'invocation of the manager callback; non-trivial = >=1 pilot death and >=2 tasks; '
             'distinct = distinct event-log digest',
     'assumptions': ['tasks with a notification in flight during an unsynced '
                     '(racy) pilot death are excluded from the oracle (both '
